@@ -15,7 +15,7 @@ from .common import cnat, cbool, clist
 ROLES = ["Ident", "ModelInfo", "Graph", "SearchJson", "ModelJson", "Metadata", "Log", "StartTime", "Time",
          "Dill", "DillTmp", "Summary", "SamplesInfo", "SamplesCsv", "Results", "SearchSummary", "Marker"]
 TAGGED = ("Summary", "SamplesCsv", "Dill", "DillTmp")
-EXC = {"BadZipFile": "BadZip", "KeyError": "KeyErr", "EOFError": "EOFErr", "UnpicklingError": "Unpickling",
+EXC = {"SearchException": "SearchExc", "BadZipFile": "BadZip", "KeyError": "KeyErr", "EOFError": "EOFErr", "UnpicklingError": "Unpickling",
        "ValueError": "ValueErr", "JSONDecodeError": "JSONDecode", "FileNotFoundError": "FileNotFound"}
 WRITE_KINDS = ("W", "A", "ZW", "ZTW")
 
@@ -25,17 +25,19 @@ WRITE_KINDS = ("W", "A", "ZW", "ZTW")
 # ---------------------------------------------------------------------------
 
 def cfg_key(c):
-    return ("db-" if c.get("db") else "") + "%s%s-rm%d-csv%d-keep%d" % (c["search"], c.get("updates", ""), c["remove_files"], c["csv"], c["keep_internal"])
+    return ("db-" if c.get("db") else "") + "%s%s-rm%d-csv%d-keep%d-chk%d" % (
+        c["search"], c.get("updates", ""), c["remove_files"], c["csv"], c["keep_internal"], int(bool(c.get("chk"))))
 
 
 def all_configs():
     out = []
-    for rm in (1, 0):
-        for csv in (0, 1):
-            for keep in (1, 0):
-                out.append({"search": "drawer", "remove_files": rm, "csv": csv, "keep_internal": keep})
-                for u in (1, 2):
-                    out.append({"search": "lbfgs", "updates": u, "remove_files": rm, "csv": csv, "keep_internal": keep})
+    for chk in (0, 1):
+        for rm in (1, 0):
+            for csv in (0, 1):
+                for keep in (1, 0):
+                    out.append({"search": "drawer", "remove_files": rm, "csv": csv, "keep_internal": keep, "chk": chk})
+                    for u in (1, 2):
+                        out.append({"search": "lbfgs", "updates": u, "remove_files": rm, "csv": csv, "keep_internal": keep, "chk": chk})
     return out
 
 
@@ -82,12 +84,14 @@ def detect_code(probes, extra):
     fx_zip      -- an os.replace onto the archive was observed
     fx_dill     -- search_internal.dill is written through search_internal.dill.tmp
     fx_resume   -- an LBFGS fit killed just before `.completed` resumes normally
-    fx_timer    -- a fit killed while creating `.start_time` resumes normally"""
+    fx_timer    -- a fit killed while creating `.start_time` resumes normally
+    fx_chk      -- with check_likelihood_function, an LBFGS fit killed just before `.completed` does not fail the sanity check"""
     fx_zip = any(ev == ["MV", "ZipTmp>Zip"] for c, r in probes for run in r["runs"] for ev in run["trace"])
     fx_dill = any(ev == ["MV", "DillTmp>Dill"] for c, r in probes for run in r["runs"] for ev in run["trace"])
     fx_resume = extra[0]["runs"][1]["outcome"] == "ok"
     fx_timer = extra[1]["runs"][1]["outcome"] == "ok"
-    return {"fx_zip": fx_zip, "fx_resume": fx_resume, "fx_timer": fx_timer, "fx_dill": fx_dill}
+    fx_chk = extra[2]["runs"][1]["outcome"] != "exc:SearchException"
+    return {"fx_zip": fx_zip, "fx_resume": fx_resume, "fx_timer": fx_timer, "fx_dill": fx_dill, "fx_chk": fx_chk}
 
 
 def gen_cases(ctx, configs, probes):
@@ -121,9 +125,16 @@ def gen_cases(ctx, configs, probes):
         for pt in rerun:
             for v in variants_of(pt[0]):
                 cases.append(history(c, [FULL, crash(pt, v), FULL]))
+    # (1a) the truncated-summary window under the library's default check_likelihood_function = true
+    chk_keys = [k for k in keys if k.endswith("chk1")]
+    for k in rng.sample(chk_keys, min(len(chk_keys), 6 if thorough else 2)):
+        c, _ = by_key[k]
+        for occ in (0, 1):
+            for v in ("empty", "half"):
+                cases.append(history(c, [crash(("W", "Summary", occ), v), FULL, FULL]))
     # (1b) DatabasePaths: re-run of a completed fit through a database session (oracle only, not modelled)
     for u in (1, 2):
-        cases.append(history({"search": "lbfgs", "updates": u, "remove_files": 1, "csv": 0, "keep_internal": 1, "db": 1}, [FULL, FULL, FULL]))
+        cases.append(history({"search": "lbfgs", "updates": u, "remove_files": 1, "csv": 0, "keep_internal": 1, "chk": 0, "db": 1}, [FULL, FULL, FULL]))
     # (2) random multi-crash histories over every configuration
     n_multi = 700 if thorough else 90
     for i in range(n_multi):
@@ -164,6 +175,8 @@ def labels(case):
             out.add("drawer-time-empty")
         if cr["kind"] == "W" and cr["role"] == "Dill" and cr["variant"] in ("empty", "half"):
             out.add("search-internal-truncated")
+        if case.get("chk") and cr["kind"] == "W" and cr["role"] == "Summary" and cr["variant"] in ("empty", "half"):
+            out.add("summary-truncated")
         if case["search"] == "lbfgs":
             out.add("lbfgs-interrupted")
     return sorted(out)
@@ -323,12 +336,12 @@ def oracle(case, res):
 # ---------------------------------------------------------------------------
 
 def c_code(flags):
-    return "(mkcode %s %s %s %s)" % tuple(cbool(flags[k]) for k in ("fx_zip", "fx_resume", "fx_timer", "fx_dill"))
+    return "(mkcode %s %s %s %s %s)" % tuple(cbool(flags[k]) for k in ("fx_zip", "fx_resume", "fx_timer", "fx_dill", "fx_chk"))
 
 
 def c_cfg(c):
-    return "(mkcfg %s %s %s %s %s)" % ("Drawer" if c["search"] == "drawer" else "LBFGS", cnat(c.get("updates", 0)),
-                                      cbool(c["remove_files"]), cbool(c["csv"]), cbool(c["keep_internal"]))
+    return "(mkcfg %s %s %s %s %s %s)" % ("Drawer" if c["search"] == "drawer" else "LBFGS", cnat(c.get("updates", 0)),
+                                         cbool(c["remove_files"]), cbool(c["csv"]), cbool(c["keep_internal"]), cbool(c.get("chk")))
 
 
 class Unprintable(Exception):
@@ -418,7 +431,7 @@ def coq_case(case, res, flags):
         run = dict(run)
         run["variant"] = (spec.get("crash") or {}).get("variant")
         runs.append(c_run(run))
-    return "CHistory %s %s %s" % (c_code(flags), c_cfg(case), clist(runs))
+    return "CHistory %s %s %s %s" % (c_code(flags), c_cfg(case), cbool(not case.get("chk")), clist(runs))
 
 
 # ---------------------------------------------------------------------------
@@ -461,11 +474,11 @@ def short(case):
 
 
 def run(ctx):
-    ctx.rule = ("a case is a history: output settings (search Drawer | LBFGS with 1-2 update blocks, remove_files, samples_to_csv, "
-                "search_internal kept) + a list of runs of the same fit, each run to its end or killed at a symbolic mutation point "
+    ctx.rule = ("a case is a history: settings (search Drawer | LBFGS with 1-2 update blocks, remove_files, samples_to_csv, "
+                "search_internal kept, check_likelihood_function) + a list of runs of the same fit, each run to its end or killed at a symbolic mutation point "
                 "(occ-th event of a kind on a file role; killed before it, with the file created empty, or with the file cut to half). "
                 "Single crashes are enumerated exhaustively over every mutation event of a fresh run and of a completed re-run for the "
-                "chosen configurations (2 in the quick tier, 12 of the 24 in the thorough tier, seed-dependent); multi-crash histories are random. Every history ends with two "
+                "chosen configurations (2 in the quick tier, 12 of the 48 in the thorough tier, seed-dependent); multi-crash histories are random. Every history ends with two "
                 "uninterrupted runs; two DatabasePaths histories (uninterrupted runs through a database session) are judged by the oracle "
                 "only. Non-trivial = some run was really killed and a later run ran to its end (database histories: at least two runs); "
                 "distinct = distinct (settings, run list)")
@@ -490,12 +503,13 @@ def run(ctx):
     if ctx.replay:
         rp = json.load(open(ctx.replay))
         if rp.get("case"):
-            configs = [{k: rp["case"][k] for k in ("search", "updates", "remove_files", "csv", "keep_internal") if k in rp["case"]}]
+            configs = [{k: rp["case"][k] for k in ("search", "updates", "remove_files", "csv", "keep_internal", "chk") if k in rp["case"]}]
     # stage 1: probes
-    lb = {"search": "lbfgs", "updates": 1, "remove_files": 0, "csv": 0, "keep_internal": 1}
+    lb = {"search": "lbfgs", "updates": 1, "remove_files": 0, "csv": 0, "keep_internal": 1, "chk": 0}
     extra_cases = [
         history(lb, [crash(("W", "Marker", 0), "before"), FULL]),
-        history({"search": "drawer", "remove_files": 0, "csv": 0, "keep_internal": 1}, [crash(("W", "StartTime", 0), "empty"), FULL]),
+        history({"search": "drawer", "remove_files": 0, "csv": 0, "keep_internal": 1, "chk": 0}, [crash(("W", "StartTime", 0), "empty"), FULL]),
+        history(dict(lb, chk=1), [crash(("W", "Marker", 0), "before"), FULL]),
     ]
     pcs = probe_cases(configs)
     pres = run_histories(pcs + extra_cases, chunk=2)
@@ -568,9 +582,9 @@ def run(ctx):
 
 def model_term(case_term):
     """For a replay: the model's own trace / outcome of each run of a disagreeing history."""
-    return ("match (%s) with CHistory cd c runs => (fix go (tag : nat) (l : list runobs) (s : fs) := match l with [] => [] | o :: r => "
+    return ("match (%s) with CHistory cd c tagged runs => (fix go (tag : nat) (l : list runobs) (s : fs) := match l with [] => [] | o :: r => "
             "let '(s', out, tr) := run_spec cd c tag (o_trace o) (o_crash o) s in "
-            "(tr, out, map (fun x => (x, fd s' x)) all_roles, match fz s' with ZAbsent => 0%%nat | ZPartial => 1%%nat | ZFull _ => 2%%nat end) :: go (S tag) r s' end) "
+            "(tr, out, map (fun x => (x, fd s' x)) all_roles, match fz s' with ZAbsent => 0%%nat | ZPartial => 1%%nat | ZFull _ => 2%%nat end) :: go (if tagged then S tag else tag) r s' end) "
             "0%%nat runs empty_fs end" % case_term)
 
 
@@ -586,16 +600,18 @@ def compact(res):
 
 
 MANIFEST = {
-    "text": "Coq 8.16 model of the file-system life-cycle of a fit (restore, pre-fit files, sampling updates, result files, "
-            ".completed last, search_internal, zip, optional rmtree) as micro-operations with crash = any prefix + interrupted file "
-            "empty/half; theorems for every state, walk order, crash point and history length: a stored result is found again without "
-            "sampling and with the same best fit / samples (complete once), stays stored under every crash outside the archive-write "
-            "window and under every crash for the repaired zip (durable), recoverable states resume to a complete result (resume), with "
-            "_refuted witnesses for the archive-write window, LBFGS resume, truncated search state and empty .start_time; vm_compute "
-            "correspondence of the model with real killed/re-run fits (trace, outcome, folder, archive) and a direct property oracle",
+    "text": "Coq 8.16 model of the file-system life-cycle of a fit (restore, pre-fit files, likelihood sanity check, sampling updates, "
+            "result files, .completed last, search_internal, zip, optional rmtree) as micro-operations with crash = any prefix + interrupted "
+            "file empty/half; theorems for every state, walk order, crash point and history length: a stored result is found again without "
+            "sampling and with the same best fit / samples (complete once), stays stored under every crash outside the archive-write window "
+            "and under every crash once the archive write is atomic (durable), a reachability invariant holds along every history and "
+            "recoverable states resume to a complete result (resume; unconditional for the repaired code), with _refuted witnesses for the "
+            "archive-write window, LBFGS resume, truncated search state / summary, empty timer files; vm_compute correspondence of the model "
+            "with real killed/re-run fits (trace, outcome, folder, archive) and a direct property oracle",
     "note": "Trusted: Coq kernel + vm_compute, the audit-hook fault injector and file readers of the harness, POSIX process-death "
-            "semantics (no power loss, no concurrent writers). Drawer and LBFGS with DirectoryPaths only; DatabasePaths and "
-            "dynesty/emcee checkpoints are not covered (DatabasePaths: oracle-only re-run check). Defects of the pinned tree (interrupted archive "
-            "write, LBFGS resume, truncated search state, empty timer files, DatabasePaths re-run) are listed as known findings with proposed repairs.",
+            "semantics (no power loss, no concurrent writers). Model: Drawer and LBFGS with DirectoryPaths; DatabasePaths only by an "
+            "oracle-level re-run check; dynesty/emcee checkpoints not covered. Defects of the pinned tree (interrupted archive write, LBFGS "
+            "resume, truncated search state / samples summary, empty timer files, likelihood sanity check, DatabasePaths re-run) are listed "
+            "as known findings with proposed repairs; theorems named *_repaired hold for the model with those repairs.",
     "technique": "machine-checked proof in Coq (state-machine model, invariants over all crash prefixes) + vm_compute correspondence with fault-injected real fits",
 }
